@@ -724,6 +724,20 @@ pub fn build(p: &Profile, data: &[u32]) -> Grammar {
             }
         }
     }
+    // productivity (again: attaching rules can close a cycle): give every unproductive rule a token alternative
+    loop {
+        let prod = refan::productive_rules(&b.g);
+        let Some(u) = prod.iter().position(|x| !*x) else { break };
+        let t = b.plain_tok();
+        let old = b.g.rules[u].body.take().unwrap();
+        b.g.rules[u].body = Some(match old {
+            Regex::Alt(mut v) => {
+                v.push(t);
+                Regex::Alt(v)
+            }
+            o => Regex::Alt(vec![o, t]).normalize(),
+        });
+    }
     if p.choice {
         denest_choices(&mut b.g);
     }
